@@ -2,6 +2,7 @@ package props
 
 import (
 	"fmt"
+	"regexp"
 	"sort"
 	"strings"
 
@@ -43,7 +44,39 @@ func init() {
 	sort.Strings(c07PropNames)
 }
 
-var c07Entries = []string{"css", "selector", "selector", "validate", "validate", "validate", "validate", "computed", "descriptors", "descriptors", "page", "color", "nth", "media", "svg", "svg", "svg", "svgattr", "url", "htmlattr", "htmlattr"}
+var c07Entries = []string{"css", "selector", "selector", "validate", "validate", "validate", "mutate", "mutate", "mutate", "computed", "descriptors", "descriptors", "page", "color", "nth", "media", "svg", "svg", "svg", "svgattr", "url", "htmlattr", "htmlattr"}
+
+var c07Pieces = regexp.MustCompile(`"[^"]*"|'[^']*'|[(),/]|[^\s(),/]+`)
+
+// c07Mutate damages the value of a declaration "name:value" at the level of its components.
+func c07Mutate(t *rapid.T, decl string) string {
+	i := strings.Index(decl, ":")
+	if i < 0 {
+		return decl
+	}
+	name, value := decl[:i], decl[i+1:]
+	ps := c07Pieces.FindAllString(value, -1)
+	for k, n := 0, rapid.IntRange(1, 2).Draw(t, "nmut"); k < n && len(ps) > 0; k++ {
+		at := rapid.IntRange(0, len(ps)-1).Draw(t, "at")
+		switch rapid.IntRange(0, 5).Draw(t, "mut") {
+		case 0: // cut after
+			ps = ps[:at+1]
+		case 1: // cut before
+			ps = ps[:at]
+		case 2: // drop
+			ps = append(ps[:at:at], ps[at+1:]...)
+		case 3: // double
+			ps = append(ps[:at+1:at+1], ps[at:]...)
+		case 4: // swap with the next
+			if at+1 < len(ps) {
+				ps[at], ps[at+1] = ps[at+1], ps[at]
+			}
+		default: // replace
+			ps[at] = rapid.SampledFrom([]string{"/", ",", "(", ")", "0", "-1", "1e39", "auto", "none", "inherit", "\"\"", "var(--x)", "calc()", "url()", "!important", "{}", "#", "%"}).Draw(t, "repl")
+		}
+	}
+	return name + ":" + strings.Join(ps, " ")
+}
 
 func c07Gen(t *rapid.T, tier Tier) interface{} {
 	c := &C07Case{Entry: rapid.SampledFrom(c07Entries).Draw(t, "entry")}
@@ -56,6 +89,12 @@ func c07Gen(t *rapid.T, tier Tier) interface{} {
 		} else {
 			c.Src = gen.SelectorText(t)
 		}
+	case "mutate":
+		// a valid declaration, damaged: cut short, a component dropped, doubled, swapped or replaced
+		c.Entry = "validate"
+		d := gen.GenValidDecl(t)
+		c.Aux = d.Name
+		c.Src = c07Mutate(t, d.Text(nil, false))
 	case "validate", "computed":
 		name := rapid.SampledFrom(c07PropNames).Draw(t, "prop")
 		if rapid.IntRange(0, 20).Draw(t, "custom") == 0 {
